@@ -368,6 +368,8 @@ def dops(s: "Sel") -> List[Dict[str, Any]]:
              feat=("dct_minmax", "MinMaxLengthType.min_length")),
         dict(name="bytes_hexff", dct=dict(k="MINMAX", base="A_BYTEFIELD", min=1, max=4, term="HEX-FF"), phys="A_BYTEFIELD",
              feat=("dct_minmax", "MinMaxLengthType.min_length")),
+        dict(name="str_opt", dct=dict(k="MINMAX", base="A_ASCIISTRING", min=0, max=5, term="ZERO"), phys="A_UNICODE2STRING",
+             feat=("p_empty_default", "ValueParameter.physical_default_value_raw<empty string>")),
         dict(name="bytes_lead", dct=dict(k="LEAD", base="A_BYTEFIELD", bits=8), phys="A_BYTEFIELD", feat=("dct_lead", "LeadingLengthInfoType.bit_length")),
         dict(name="bytes_plen", dct=dict(k="PLEN", base="A_BYTEFIELD", key_id=B + ".rq_all.lk"), phys="A_BYTEFIELD",
              feat=("dct_plen", "ParamLengthInfoType.length_key_ref")),
@@ -431,6 +433,8 @@ def messages(s: "Sel") -> List[Dict[str, Any]]:
             dict(t="TABLE-STRUCT", name="ts2", key="tk2", key_snref=True, byte=3, feat=("p_tablestruct_snref", "TableStructParameter.table_key_snref"))]),
         dict(kind="REQUEST", name="rq_str", params=[cc("sid", 0x2E, 0), dict(t="VALUE", name="s1", dop="str_mm", byte=1, feat=("dct_minmax", "")),
                                                      dict(t="VALUE", name="b1", dop="bytes_lead", feat=("dct_lead", "")), dict(t="VALUE", name="f", dop="f32"),
+                                                     dict(t="VALUE", name="s0", dop="str_opt", default="", feat=("p_empty_default", "")),
+                                                     dict(t="VALUE", name="s3", dop="str_opt", default="abc", feat=("p_empty_default", "")),
                                                      dict(t="VALUE", name="s2", dop="utf8_eop", feat=("dct_minmax", ""))]),
         dict(kind="POS-RESPONSE", name="pr_all", long_name="all response parameter kinds", params=[
             cc("sid", 0x62, 0), dict(t="MATCHING-REQUEST-PARAM", name="echo", rq_byte=1, len=1, byte=1),
